@@ -27,6 +27,15 @@ import (
 // filter in A and an aggregate in B, one name only in A, one only in B), A / B / nothing with
 // accessor mode. Some calls rebind every name of their Config right after Parse returned.
 //
+// 40% of the histories additionally contain a block of 2..4 calls that share ONE long-lived Config
+// object which is MUTATED between the calls (the other calls of the history are interleaved):
+// Parse P with cfg (functions registered), then `cfg.SetAccessorMode()` on it — or on a copy
+// `c2 := cfg` — and Parse P again; or a function is added / rebound after a Parse
+// (`cfg.SetFilterFunction("late", …)`) and a path that uses it is parsed again. The reference of
+// such a call is a fresh process that builds a Config in the state the object has AT THAT CALL
+// (functions + accessor mode) and makes the call first: after SetAccessorMode the results must be
+// Accessors, a function added later must be found, a rebound name must call the new function.
+//
 // Oracle: the observable outcome of every call — error type and full text, or the dump of the
 // tree that was built plus the results, accessor-ness and the user-function call log on three
 // probe documents — equals the outcome of the very same call made FIRST in a FRESH process
@@ -206,6 +215,118 @@ type c19Call struct {
 	Kind     string      // valid / random / the action the path fails at
 	Doc      interface{} // third probe document
 	Pool     bool        // the reference outcome may be cached (fixed path, fixed probe)
+	// long-lived Config objects (0: the Config is built for this call alone)
+	Live    int      // 1: the history's long-lived Config object; 2: a copy of it (`c2 := cfg`), made right before the first call that uses the copy
+	NewMuts []string // what is done to that object right before this call: acc = SetAccessorMode, late = a new filter function `late`, rebind = `id` and `max` bound to other functions
+	Muts    []string // everything done to the object up to and including this call = the state the reference builds
+	Scen    string
+}
+
+func c19ApplyMuts(c *jsonpath.Config, muts []string, log *c19Log) {
+	for _, m := range muts {
+		switch m {
+		case "acc":
+			c.SetAccessorMode()
+		case "late":
+			c.SetFilterFunction("late", func(v interface{}) (interface{}, error) {
+				log.add("MUT.late(" + ValSexp(v) + ")")
+				return "late!", nil
+			})
+		case "rebind":
+			c.SetFilterFunction("id", func(v interface{}) (interface{}, error) {
+				log.add("MUT.id(" + ValSexp(v) + ")")
+				return "MUT-id", nil
+			})
+			c.SetAggregateFunction("max", func(vs []interface{}) (interface{}, error) {
+				log.add("MUT.max[" + ValsSexp(vs) + "]")
+				return float64(-7), nil
+			})
+		}
+	}
+}
+
+// c19Live: the long-lived Config objects of one history.
+type c19Live struct {
+	cfgs map[int]*jsonpath.Config
+	log  *c19Log
+}
+
+func c19NewLive() *c19Live { return &c19Live{cfgs: map[int]*jsonpath.Config{}, log: &c19Log{}} }
+
+func (l *c19Live) get(c c19Call) (*jsonpath.Config, *c19Log) {
+	if l.cfgs[1] == nil {
+		l.cfgs[1] = c19Config(c.Cfg, l.log)
+	}
+	if c.Live == 2 && l.cfgs[2] == nil {
+		c2 := *l.cfgs[1] // `c2 := cfg`
+		l.cfgs[2] = &c2
+	}
+	cfg := l.cfgs[c.Live]
+	c19ApplyMuts(cfg, c.NewMuts, l.log)
+	l.log.take()
+	return cfg, l.log
+}
+
+var c19LatePaths = []string{"$.a.late()", "$.b[?(@.a.late())]", "$.d.max().late()", "$.a.a.late().id()", "[?(@.a.late())]"}
+var c19RebindPaths = []string{"$.a.id()", "$.d.max()", "$.b[?(@.a.id())].a", "$.d.max().id()", "$..a.id()", "$.b[?($.d.max()==3)]", "$.b[*].a.max()"}
+
+// c19LiveBlock: 2..4 calls on one Config object (and a copy of it) that is mutated in between.
+func c19LiveBlock(r *Rng, poolDoc interface{}) []c19Call {
+	base := []int{c19A, c19B, c19Empty}[r.Weighted([]int{50, 35, 15})]
+	scen := []string{"acc-same-object", "acc-on-copy", "acc-on-copy-first", "function-added-later", "function-rebound-later", "acc-then-function-added"}[r.Weighted([]int{28, 20, 12, 16, 12, 12})]
+	p := r.Pick(c19ValidPaths)
+	if r.Chance(35) {
+		p = r.Pick([]string{"$.a", "$.b[0].a", "$..a", "$.d[0:2]", "$.b[?(@.a==1)]", "$"})
+	}
+	pl, pi := r.Pick(c19LatePaths), r.Pick(c19RebindPaths)
+	type op struct {
+		obj  int
+		muts []string
+		path string
+	}
+	var ops []op
+	switch scen {
+	case "acc-same-object":
+		ops = []op{{1, nil, p}, {1, []string{"acc"}, p}}
+		if r.Chance(30) {
+			ops = append(ops, op{1, nil, r.Pick(c19ValidPaths)})
+		}
+	case "acc-on-copy":
+		ops = []op{{1, nil, p}, {2, []string{"acc"}, p}}
+		if r.Chance(50) {
+			ops = append(ops, op{1, nil, p})
+		}
+	case "acc-on-copy-first":
+		ops = []op{{2, []string{"acc"}, p}, {1, nil, p}}
+		if r.Chance(50) {
+			ops = append(ops, op{2, nil, p})
+		}
+	case "function-added-later":
+		ops = []op{{1, nil, pl}, {1, []string{"late"}, pl}}
+		if r.Chance(30) {
+			ops = append(ops, op{1, []string{"acc"}, pl})
+		}
+	case "function-rebound-later":
+		ops = []op{{1, nil, pi}, {1, []string{"rebind"}, pi}}
+		if r.Chance(30) {
+			ops = append(ops, op{1, []string{"acc"}, pi})
+		}
+	default:
+		ops = []op{{1, nil, p}, {1, []string{"acc"}, p}, {1, []string{"late"}, pl}, {1, nil, p}}
+	}
+	state := map[int][]string{}
+	made2 := false
+	var out []c19Call
+	for _, o := range ops {
+		if o.obj == 2 && !made2 {
+			made2 = true
+			state[2] = append([]string{}, state[1]...)
+		}
+		state[o.obj] = append(state[o.obj], o.muts...)
+		out = append(out, c19Call{Path: o.path, Cfg: base, Kind: "live", Doc: poolDoc, Pool: true, Retrieve: r.Chance(12),
+			Live: o.obj, NewMuts: o.muts, Muts: append([]string{}, state[o.obj]...), Scen: scen})
+	}
+	return out
 }
 
 type c19PoolPath struct{ kind, path string }
@@ -284,6 +405,21 @@ func c19History(seed int64, index int) []c19Call {
 		}
 		calls[j] = c
 	}
+	if r.Chance(40) {
+		// the block's calls keep their order; the other calls of the history are interleaved
+		block := c19LiveBlock(r, poolDoc)
+		for _, bc := range block {
+			at := r.Intn(len(calls) + 1)
+			// never before an earlier call of the block
+			for k := len(calls) - 1; k >= at; k-- {
+				if calls[k].Live != 0 {
+					at = k + 1
+					break
+				}
+			}
+			calls = append(calls[:at], append([]c19Call{bc}, calls[at:]...)...)
+		}
+	}
 	return calls
 }
 
@@ -335,9 +471,21 @@ func c19Behave(f Parsed, log *c19Log, docs []interface{}) string {
 	return b.String()
 }
 
-func c19Do(c c19Call) c19Done {
-	log := &c19Log{}
-	cfg := c19Config(c.Cfg, log)
+// c19Do makes the call on its own: the Config is built for it, in the state the call describes.
+func c19Do(c c19Call) c19Done { return c19DoIn(c, nil) }
+
+// c19DoIn makes the call as part of a history: a call on a long-lived Config object uses (and
+// mutates) the object kept in live.
+func c19DoIn(c c19Call, live *c19Live) c19Done {
+	var log *c19Log
+	var cfg *jsonpath.Config
+	if c.Live != 0 && live != nil {
+		cfg, log = live.get(c)
+	} else {
+		log = &c19Log{}
+		cfg = c19Config(c.Cfg, log)
+		c19ApplyMuts(cfg, c.Muts, log)
+	}
 	docs := c19ProbeDocs(c)
 	if c.Retrieve {
 		out := c02Retrieve(c.Path, DeepCopy(docs[0]), cfg)
@@ -372,8 +520,9 @@ func (c19f) Exec(seed int64, idx int, tier string) Record {
 	j := idx % 16
 	if j == 15 {
 		var all []string
+		live := c19NewLive()
 		for _, c := range hist {
-			all = append(all, c19Do(c).obs)
+			all = append(all, c19DoIn(c, live).obs)
 		}
 		return Record{Info: map[string]interface{}{"all": all}}
 	}
@@ -416,7 +565,7 @@ func c19Fresh(seed int64, idx int, tier string) (map[string]interface{}, string)
 var c19RefCache = map[string]string{}
 
 func c19CallKey(c c19Call) string {
-	return fmt.Sprintf("%d|%v|%v|%s", c.Cfg, c.PostMod, c.Retrieve, c.Path)
+	return fmt.Sprintf("%d|%s|%v|%v|%s", c.Cfg, strings.Join(c.Muts, "+"), c.PostMod, c.Retrieve, c.Path)
 }
 
 // ---------- the property ----------
@@ -426,7 +575,23 @@ func (c19) Exec(seed int64, i int, tier string) Record {
 	rec := Record{Info: map[string]interface{}{}, Tags: []string{fmt.Sprintf("hist-len:%d", len(hist))}}
 	var descr []string
 	for _, c := range hist {
-		descr = append(descr, fmt.Sprintf("%s%s%s %q", c19CfgNames[c.Cfg], pick(c.PostMod, "+mod", ""), pick(c.Retrieve, " Retrieve", " Parse"), c.Path))
+		d := fmt.Sprintf("%s%s%s %q", c19CfgNames[c.Cfg], pick(c.PostMod, "+mod", ""), pick(c.Retrieve, " Retrieve", " Parse"), c.Path)
+		if c.Live != 0 {
+			state := c19CfgNames[c.Cfg]
+			for _, m := range c.Muts {
+				state += "+" + m
+			}
+			obj := "the long-lived Config object `cfg`"
+			if c.Live == 2 {
+				obj = "`c2 := cfg` (a copy of the long-lived object, made before the first call with c2)"
+			}
+			now := "not modified since its previous use (or since it was built)"
+			if len(c.NewMuts) > 0 {
+				now = "just before this call: " + strings.Join(c.NewMuts, ", ") + " applied to it"
+			}
+			d = fmt.Sprintf("%s%s %q with %s, %s; its state is now %s", state, pick(c.Retrieve, " Retrieve", " Parse"), c.Path, obj, now, state)
+		}
+		descr = append(descr, d)
 	}
 	rec.Info["history"] = descr
 	rec.Text = hist[len(hist)-1].Path
@@ -439,9 +604,18 @@ func (c19) Exec(seed int64, i int, tier string) Record {
 	done := make([]c19Done, len(hist))
 	var keyParts []string
 	nontrivial := false
+	live := c19NewLive()
 	for j, c := range hist {
-		d := c19Do(c)
+		d := c19DoIn(c, live)
 		done[j] = d
+		if c.Live != 0 {
+			nontrivial = true
+			rec.Tags = append(rec.Tags, "live-config:"+c.Scen)
+			if len(c.NewMuts) > 0 {
+				keyParts = append(keyParts, "live:"+c.Scen+":"+strings.Join(c.NewMuts, "+")+":"+d.kind)
+				rec.Tags = append(rec.Tags, "live-config:mutated:"+strings.Join(c.NewMuts, "+"))
+			}
+		}
 		rec.Tags = append(rec.Tags, "cfg:"+c19CfgNames[c.Cfg], "path:"+c.Kind, "out:"+d.kind)
 		if c.PostMod {
 			rec.Tags = append(rec.Tags, "postmod")
